@@ -6,7 +6,9 @@ The signature relation is abstract: `m.sigBy = some k` means the packet's signat
 re-encoded ToBeSignedData (payload + signed header information) exactly as received.
 -/
 import FlexModel.Sec.Lemmas
+import FlexModel.Sec.Reentrancy
 import Generated.Sec
+import Generated.SecWrites
 
 namespace Props.C03
 open FlexModel.Sec FlexModel.Sec.Store
@@ -23,25 +25,29 @@ def Packet.certs : Packet → List Cert
 
 /-- MAIN: with security enabled, a payload is handed to the upper layers only if the packet is a secured packet,
     the delivered bytes are its signed payload, and its signature verifies under the key of an authorization ticket
-    of the store whose chain reaches a configured root — for every library satisfying C09's invariant. -/
-theorem deliver_implies_authentic {U : Cert → Prop} (hinj : IdInj U) {S S' : Station} (hinv : Inv U S.store)
+    of the store whose chain reaches a configured root — for every library satisfying C09's invariant, and for every
+    variant `cfg` of the code that has the containment guard of C09-F3 (`allGuard`; the two acceptance guards of
+    C09-F1/F2 are not needed for authenticity). -/
+theorem deliver_implies_authentic {U : Cert → Prop} (hinj : IdInj U) {cfg : Cfg} (hg : cfg.allGuard = true)
+    {S S' : Station} (hinv : Inv U S.store)
     {hv : Bool} {p : Packet} (hp : ∀ c ∈ Packet.certs p, U c) {pl : Nat}
-    (h : gate Cfg.fixed true hv S p = (S', .pass pl)) : Authentic S'.store p pl := by
+    (h : gate cfg true hv S p = (S', .pass pl)) : Authentic S'.store p pl := by
   rcases gate_pass h with ⟨_, hen, _⟩ | ⟨m, o, rfl, _, hvm, hs, hpl⟩
   · simp at hen
   · obtain ⟨a, hmem, hacc, hsg⟩ := verifyMsg_success hvm hs
     have hinv' : Inv U S'.store := by
-      have := verifyMsg_inv hinj (cfg := Cfg.fixed) rfl hinv (m := m) hp
+      have := verifyMsg_inv hinj (cfg := cfg) hg hinv (m := m) hp
       rw [hvm] at this; exact this
     refine ⟨m, rfl, ?_, a, hmem, hacc.sig, hacc.isAT, hinv'.closed _ (Or.inr (mem_certsOf.2 ⟨a, hmem, rfl⟩)), hsg⟩
     have := hacc.plain; rw [hpl] at this; exact (Option.some.inj this)
 
-def stepPacket (en hv : Bool) (S : Station) (p : Packet) : Station := (gate Cfg.fixed en hv S p).1
+def stepPacket (cfg : Cfg) (en hv : Bool) (S : Station) (p : Packet) : Station := (gate cfg en hv S p).1
 
 /-- C09's invariant survives every history of received packets (genuine or forged, any order and number) -/
-theorem history_inv {U : Cert → Prop} (hinj : IdInj U) (en hv : Bool) (hist : List Packet) (S0 : Station)
+theorem history_inv {U : Cert → Prop} (hinj : IdInj U) {cfg : Cfg} (hg : cfg.allGuard = true) (en hv : Bool)
+    (hist : List Packet) (S0 : Station)
     (hinv : Inv U S0.store) (hh : ∀ q ∈ hist, ∀ c ∈ Packet.certs q, U c) :
-    Inv U (hist.foldl (stepPacket en hv) S0).store := by
+    Inv U (hist.foldl (stepPacket cfg en hv) S0).store := by
   induction hist generalizing S0 with
   | nil => exact hinv
   | cons q rest ih =>
@@ -52,18 +58,19 @@ theorem history_inv {U : Cert → Prop} (hinj : IdInj U) (en hv : Bool) (hist : 
     split
     · rename_i m
       split
-      · exact verifyMsg_inv hinj rfl hinv (hh (.secured (some m)) (by simp))
+      · exact verifyMsg_inv hinj hg hinv (hh (.secured (some m)) (by simp))
       · exact hinv
     · exact hinv
 
 /-- … whatever genuine or forged packets were received before: for every history of received packets starting from
     a library closed under C09 (e.g. configured roots only) -/
-theorem deliver_implies_authentic_after_any_history {U : Cert → Prop} (hinj : IdInj U) (hist : List Packet)
+theorem deliver_implies_authentic_after_any_history {U : Cert → Prop} (hinj : IdInj U) {cfg : Cfg}
+    (hg : cfg.allGuard = true) (hist : List Packet)
     {S0 S' : Station} (hinv : Inv U S0.store) {hv : Bool} (hh : ∀ q ∈ hist, ∀ c ∈ Packet.certs q, U c)
     {p : Packet} (hp : ∀ c ∈ Packet.certs p, U c) {pl : Nat}
-    (h : gate Cfg.fixed true hv (hist.foldl (stepPacket true hv) S0) p = (S', .pass pl)) :
+    (h : gate cfg true hv (hist.foldl (stepPacket cfg true hv) S0) p = (S', .pass pl)) :
     Authentic S'.store p pl :=
-  deliver_implies_authentic hinj (history_inv hinj true hv hist S0 hinv hh) hp h
+  deliver_implies_authentic hinj hg (history_inv hinj hg true hv hist S0 hinv hh) hp h
 
 /-- unsecured packets are dropped when itsGnSecurity is ENABLED, in every state -/
 theorem unsecured_dropped_when_enabled (cfg : Cfg) (hv : Bool) (S : Station) (pl : Nat) :
@@ -137,6 +144,37 @@ theorem tampered_dropped {cfg : Cfg} {en hv : Bool} {S : Station} {m : Msg} (pl 
     obtain ⟨a, hmem, hacc, hsg⟩ := verifyMsg_success hvm hs
     exact hbad a hmem hsg hacc.sig
 
+/-- "over exactly the delivered bytes": what is handed up is the payload INSIDE the signed content `m.tbs`, and – the
+    abstraction of the packet being sound for the signature scheme `G` – the packet's signature value verifies over
+    that very content (payload and signed header information together) under the key of the chained ticket -/
+theorem delivered_is_signed_content {U : Cert → Prop} (hinj : IdInj U) {cfg : Cfg} (hg : cfg.allGuard = true)
+    (G : SigScheme) {S S' : Station} (hinv : Inv U S.store) {hv : Bool} {m : Msg} (hm : ∀ c ∈ m.certs, U c)
+    (hsound : m.SigSound G) {pl : Nat} (h : gate cfg true hv S (.secured (some m)) = (S', .pass pl)) :
+    pl = m.tbs.payload ∧ ∃ a, a ∈ S'.store.ats ∧ Chain S'.store a.c ∧ G.V a.c.key m.tbs m.sig := by
+  obtain ⟨m', hp, hpl, a, hmem, hsig, _, hchain, _⟩ :=
+    (deliver_implies_authentic hinj hg hinv (p := .secured (some m)) hm h).secured
+  cases hp
+  exact ⟨hpl, a, hmem, hchain, hsound _ hsig⟩
+
+/-- altered signed content: a packet `m'` that re-uses the signature VALUE of a packet `m` over different signed
+    content (payload or any signed header field changed in any bit) is not delivered under any ticket whose key
+    validated `m`'s signature – from the explicit cryptographic assumption `G.binding` (one signature value, one
+    content), not from a hypothesis about the verdict.  (A changed signature value is outside this statement: ECDSA
+    signatures are malleable, `s ↦ n − s` verifies over the same content and is authentic by the property's text.) -/
+theorem tampered_content_dropped (G : SigScheme) {cfg : Cfg} {en hv : Bool} {S : Station} {m m' : Msg} {k : Nat}
+    (hm : m.SigSound G) (hm' : m'.SigSound G) (hk : m.sigBy = some k) (hsig : m'.sig = m.sig)
+    (htbs : m'.tbs ≠ m.tbs)
+    (hres : ∀ a, a ∈ (gate cfg en hv S (.secured (some m'))).1.store.ats →
+      (m'.signer = .digest a.c.id ∨ ∃ c, m'.signer = .certs [c] ∧ c.id = a.c.id) → a.c.key = k) (pl : Nat) :
+    (gate cfg en hv S (.secured (some m'))).2 ≠ .pass pl := by
+  apply tampered_dropped pl
+  intro a ha hsg hc
+  have hkey := hres a ha hsg
+  rw [hkey] at hc
+  have h1 := hm' k hc
+  rw [hsig] at h1
+  exact htbs (G.binding k _ _ _ h1 (hm k hk))
+
 /-- history independence (1): the verdict on a packet and the library afterwards are a function of the library (and of
     whether a sign service is attached) – timers, P2PCD lists and everything else earlier traffic left behind are
     irrelevant -/
@@ -179,6 +217,57 @@ theorem report_codes_agree :
        ("UNSUPPORTED_SIGNER_IDENTIFIER_TYPE", Report.unsupportedSignerIdentifierType.code),
        ("INCOMPATIBLE_PROTOCOL", Report.incompatibleProtocol.code)] := by decide
 
+/-! ## Re-entrancy: the model is a function of (station state, packet) – and the source keeps nothing else -/
+
+/-- regenerated fact (ast pass of harness/gen_sec.py over verify_service.py, certificate_library.py, certificate.py,
+    sign_service.py, ecdsa_backend.py): the stores that outlive a call of `VerifyService.verify` – every
+    `self.<attr>` assignment / augmented assignment / deletion / item store / mutating container call / setattr /
+    module-global store in every function the verification path can reach, `__init__` excluded – are EXACTLY the
+    ones the model carries as `Station` state: the library learns authorities and tickets, the sign service keeps the
+    P2PCD lists and the request flag.  `VerifyService` itself stores nothing, so two overlapping `verify()` calls
+    share nothing but that state.  A new instance attribute written on the path (e.g. the decoded SignedData kept in
+    `self._signed_data` for a helper method) re-opens this obligation. -/
+theorem reentrancy_matches_source :
+    Generated.SecWrites.verifyServiceWrites = [] ∧
+    (Generated.SecWrites.verifyPathWrites = modelledWrites ∨
+     Generated.SecWrites.verifyPathWrites = modelledWritesOld) := by
+  decide
+
+/-- … and the model writes nowhere else: each modelled write lands in a `Station` field of `writtenFields`
+    (authorities, tickets, unknown / requested lists, request flag, owed set), and a received packet – genuine or
+    forged – leaves every other field (configured roots, own certificates, presence of the sign service, CAM timers,
+    variant) untouched -/
+theorem verify_write_footprint (cfg : Cfg) (S : Station) (m : Msg) :
+    (∀ f, f ∈ writtenFields ↔ some f ∈ modelledWrites.map (fun w => fieldOfTarget w.2.2.2)) ∧
+    (S.verifyMsg cfg m).1.store.roots = S.store.roots ∧ (S.verifyMsg cfg m).1.store.own = S.store.own ∧
+    (S.verifyMsg cfg m).1.hasSign = S.hasSign ∧ (S.verifyMsg cfg m).1.lastFull = S.lastFull ∧
+    (S.verifyMsg cfg m).1.lastOf = S.lastOf ∧ (S.verifyMsg cfg m).1.perTicket = S.perTicket :=
+  ⟨modelledWrites_fields.2.1, verifyMsg_footprint cfg S m⟩
+
+/-- serial semantics of two packets handed to one station: the verdict on each packet is the model's verdict in the
+    state left by the packets before it – the only two outcomes a correct (linearisable) concurrent execution of two
+    overlapping `verify()` calls may show are `serial p q` and `serial q p` (checked against the real code under the
+    deterministic scheduler by harness/props/c03.py; a schedule exploration supports the tie, it proves nothing) -/
+def serial (cfg : Cfg) (en hv : Bool) (S : Station) (p q : Packet) : GateOut × GateOut × Station :=
+  let r1 := gate cfg en hv S p
+  let r2 := gate cfg en hv r1.1 q
+  (r1.2, r2.2, r2.1)
+
+/-- in EITHER serial order both deliveries are authentic: whatever is handed up for `p` is `p`'s own signed payload
+    under a chained ticket, never the other packet's -/
+theorem serial_deliveries_authentic {U : Cert → Prop} (hinj : IdInj U) {cfg : Cfg} (hg : cfg.allGuard = true)
+    {S : Station} (hinv : Inv U S.store)
+    {hv : Bool} {p q : Packet} (hp : ∀ c ∈ Packet.certs p, U c) (hq : ∀ c ∈ Packet.certs q, U c) :
+    (∀ pl, (serial cfg true hv S p q).1 = .pass pl → Authentic (gate cfg true hv S p).1.store p pl) ∧
+    (∀ pl, (serial cfg true hv S p q).2.1 = .pass pl → Authentic (serial cfg true hv S p q).2.2.store q pl) := by
+  refine ⟨fun pl h => ?_, fun pl h => ?_⟩
+  · exact deliver_implies_authentic hinj hg hinv hp (S' := (gate cfg true hv S p).1) (by
+      simp only [serial] at h; rw [← h])
+  · have hinv1 : Inv U (gate cfg true hv S p).1.store :=
+      history_inv hinj hg true hv [p] S hinv (fun r hr c hc => by simp at hr; subst hr; exact hp c hc)
+    exact deliver_implies_authentic hinj hg hinv1 hq (S' := (gate cfg true hv (gate cfg true hv S p).1 q).1) (by
+      simp only [serial] at h; rw [← h])
+
 /-! ## Non-vacuity: the honest packet IS delivered, its tampered twins are not -/
 
 def xRoot : Cert :=
@@ -202,7 +291,27 @@ example : (gate Cfg.fixed true true xStation (.secured (some (xMsg (.certs [xEvi
 example : (gate Cfg.fixed true true xStation (.unsecured 7)).2 = .drop "unsecured" := by decide
 /-- a forged packet first, then the genuine certificate-carrying one, then its digest-signed successor: verdicts as without the forgery -/
 example : ((([.secured (some (xMsg (.certs [xEvilAT]) (some 66))), .secured (some (xMsg (.certs [xAT]) (some 12)))] : List Packet).foldl
-    (stepPacket true true) xStation) |> fun S => (gate Cfg.fixed true true S (.secured (some (xMsg (.digest 12) (some 12))))).2)
+    (stepPacket Cfg.fixed true true) xStation) |> fun S => (gate Cfg.fixed true true S (.secured (some (xMsg (.digest 12) (some 12))))).2)
     = .pass 7 := by decide
+
+/-- a signature scheme in which exactly the genuine packet's signature value (0) is valid, over its content, under key 12 -/
+def xG : SigScheme :=
+  { V := fun k t s => t = (xMsg (.certs [xAT]) (some 12)).tbs ∧ s = 0 ∧ k = 12,
+    binding := by intro k t t' s h1 h2; rw [h1.1, h2.1] }
+
+def xTampered : Msg := { xMsg (.certs [xAT]) none with payload := 8 }
+
+/-- non-vacuity of `tampered_content_dropped`: the genuine packet and its twin with an altered payload (same signature
+    value, which no longer verifies: `sigBy = none`) satisfy every hypothesis -/
+example : (gate Cfg.fixed true true xStation (.secured (some xTampered))).2 ≠ .pass 8 :=
+  tampered_content_dropped xG (cfg := Cfg.fixed) (en := true) (hv := true) (S := xStation)
+    (m := xMsg (.certs [xAT]) (some 12)) (m' := xTampered) (k := 12)
+    (by intro k hk; cases hk; exact ⟨rfl, rfl, rfl⟩) (by intro k hk; cases hk) rfl rfl (by decide)
+    (by
+      intro a ha _
+      have : (gate Cfg.fixed true true xStation (.secured (some xTampered))).1.store.ats = [⟨xAT, some xAA⟩] := by decide
+      rw [this] at ha
+      simp only [List.mem_singleton] at ha
+      subst ha; rfl) 8
 
 end Props.C03
